@@ -220,7 +220,9 @@ fn do_dispatch(sim: &Rc<Sim>, lp: &mut Option<EventLoop<'static, Tag>>, t: Timeo
     match r {
         Err(p) => {
             let msg = panic_msg(&p);
-            sim.violate("dispatch.panic", vec![], format!("dispatch panicked: {}", msg));
+            let life = sim.st.borrow().srcs.values().any(|s| matches!(s.k, K::Life(_)));
+            let extra: &[&str] = if life && msg.contains("unreachable") { &["C14"] } else { &[] };
+            sim.violate_props("dispatch.panic", extra, vec![], format!("dispatch panicked: {}", msg));
         }
         Ok(res) => {
             sim.trace(|| format!("  dispatch -> {} t={}..{}", if res.is_ok() { "Ok".to_string() } else { format!("Err({})", res.as_ref().unwrap_err()) }, t_start, t_end));
@@ -400,7 +402,7 @@ fn check_wait(sim: &Rc<Sim>, t: Timeout, w: &WaitRec, t_start: u64, t_end: u64, 
         };
     if w.requested != Some(expect) {
         sim.violate(
-            "wait.requested_timeout",
+            if synth { "lifecycle.synthetic_timeout" } else { "wait.requested_timeout" },
             vec![format!("timeout={:?}", t).chars().take(12).collect(), if next.is_some() { "timer_armed".into() } else { "no_timer".into() }],
             format!("dispatch({:?}) asked the poller to wait {:?} ns; expected {:?} ns (earliest armed deadline in {:?} ns)", t, w.requested, expect, until_timer),
         );
